@@ -253,6 +253,11 @@ def rand_src(rng: random.Random, prof: Profile | None = None) -> ChartSrc:
         t += rng.choice([0, 1, res, rng.randint(0, last + 600)])
         kind, val = rand_text(rng, prof)
         gevents.append((t, kind, val))
+    if rng.random() < 0.12:
+        # event names that mean something to the games (song end, coda, solo markers, dynamics switches) are just texts here: an `end`
+        # event before the last note ends nothing
+        sig = rng.choice(["end", "end", "[end]", "coda", "music_end", "solo", "soloend", "ENABLE_CHART_DYNAMICS", "crowd_noclap", "idle"])
+        gevents = [(rng.choice([0, 0, 1]), rng.choice(["text", "text", "section", "lyric"]), sig)] + [(t_ + 1, k_, v_) for t_, k_, v_ in gevents]
     tracks = []
     thr = threshold(res)
     for i, d in rng.sample([(i, d) for i in range(10) for d in range(4)], rng.randint(0, prof.max_tracks)):
